@@ -26,7 +26,9 @@ def tktTok : Option Ticket → String
     s!"{t.id}.{t.state}.{sigTok t.offerSig}.{if t.recipient then 1 else 0}.{ord}"
 
 def parseSig : Char → Option Sig
-  | 'n' => some .none | 'v' => some .valid | 'x' => some .bad | _ => none
+  | 'n' => some .none | 'v' => some .valid | 'x' => some .bad
+  | 'y' => some .bad   -- the registered signature bytes over a changed signed field: invalid all the same
+  | _ => none
 
 def parseTkt (s : String) : Option (Option Ticket) :=
   if s == "nil" then some none else
@@ -195,6 +197,15 @@ def drvStep (st : DrvSt) (args : List String) : DrvSt × String :=
       | none => (st, "not-enabled")
       | some s1 => let s2 := settle prov 16 s1; ({ sys := s2 }, sumTok s0 s2)
     | _, _ => (st, "bad-op")
+  | ["outage", side] =>
+    -- receive error whose first reconnect attempt fails as well: the reader just retries
+    match parseSide side with
+    | some prov =>
+      let s0 := st.sys
+      match apply s0 (.recvErr prov) with
+      | none => (st, "not-enabled")
+      | some s1 => ({ sys := s1 }, sumTok s0 s1)
+    | none => (st, "bad-op")
   | ["rerr", side] =>
     match parseSide side with
     | some prov =>
